@@ -505,7 +505,22 @@ impl Driver {
             content.extend(self.rng.bytes(n));
         }
         let _ = std::fs::create_dir_all(&self.files_dir);
-        let path = self.files_dir.join(format!("att-{}.bin", self.rng.token(10)));
+        // file names a user may pick from: plain, no extension, spaces / unicode, dotfile, a
+        // uuid, and content-addressed (the hex SHA-256 of the content, the way blob stores and
+        // this code base's own storage name files)
+        let name = match self.rng.below(8) {
+            0 => hex::encode(vkit::sha256(&content)),
+            1 => format!("{}.{}", hex::encode(vkit::sha256(&content)), "bin"),
+            2 => format!("report {} ünï.pdf", self.rng.token(5)),
+            3 => format!(".hidden-{}", self.rng.token(6)),
+            4 => uuid::Uuid::new_v4().to_string(),
+            5 => format!("noext{}", self.rng.token(6)),
+            _ => format!("att-{}.bin", self.rng.token(10)),
+        };
+        // identical content (the empty file) may be generated twice: keep names unique per call
+        let dir = self.files_dir.join(self.rng.token(8));
+        let _ = std::fs::create_dir_all(&dir);
+        let path = dir.join(name);
         std::fs::write(&path, &content).expect("write temp file");
         (path, content)
     }
